@@ -321,7 +321,7 @@ def build_cases(ctx, table):
         t = ig.truth(g)
         # a cycle among local units costs two stack exhaustions per case (finding C07-cyclic-local-units) and these
         # graphs are a large share of the enumeration: 1 in 6 of them is run
-        if t.local_units_cycle and n % 6 != 0:
+        if t.local_units_cycle and n % 6 != 0 and not quick:
             nskip += 1
             continue
         cases.append(base_case(table, g, n % 2 == 0, "enum%d" % n))
@@ -547,11 +547,14 @@ def evaluate(ctx, results, hist, enum_info, table, rerun):
                          % (sorted(agrees_with_repair), agrees_with_repair, FIXES_APPLIED))
     ctx.cov["evaluations"] = len(results)
     ctx.cov["distinct_nontrivial"] = len(nontrivial)
-    ctx.cov["exhaustive"] = True
+    # quick: the enumerated space is run completely; thorough: except for graphs with a cycle among local units (1 in 6)
+    ctx.cov["exhaustive"] = hist.get("enumerated_with_local_units_cycle_not_run", 0) == 0
+    if not ctx.cov["exhaustive"]:
+        ctx.cov["exhaustive_part"] = "every enumerated graph without a cycle among local units, and every sixth of the others"
     ctx.cov["rule"] = ("every import graph reachable from the origin file with <= %d files and <= %d defined entities "
                        "(<= 2 names per kind and file, <= 2 unit references; %d graphs after removing renamings, enumerated "
-                       "completely; %d of them resolvable; of those with a cycle among local units -- finding "
-                       "C07-cyclic-local-units, two stack exhaustions per case -- every sixth is run) is run as: write files, new Importer, parse origin, resolveImports, "
+                       "completely; %d of them resolvable; in the thorough tier, of those with a cycle among local units -- "
+                       "finding C07-cyclic-local-units, two stack exhaustions per case -- every sixth is run) is run as: write files, new Importer, parse origin, resolveImports, "
                        "hasUnresolvedImports, flattenModel, resolveImports again; every resolvable one additionally under every "
                        "single fault (file missing, truncated at 4 prefix classes, non-CellML XML, entity removed, parser error on "
                        "an entity, each back edge) followed by repair and re-resolution on the same importer, after "
